@@ -39,8 +39,11 @@ impl PT {
 }
 
 struct Cx<'a> {
+    /// the verifier parameter (empty inside an inlined helper, whose parameters are in `vals`)
     param: String,
     lets: BTreeMap<String, syn::Expr>,
+    /// names bound to terms evaluated elsewhere (the arguments of an inlined helper)
+    vals: BTreeMap<String, PT>,
     consts: &'a BTreeMap<String, String>,
 }
 
@@ -83,6 +86,9 @@ impl<'a> Cx<'a> {
                     return PT::Str(s);
                 }
                 if let Some(i) = ident_of(x) {
+                    if let Some(v) = self.vals.get(&i) {
+                        return v.clone();
+                    }
                     if let Some(v) = self.lets.get(&i) {
                         return self.pt(&v.clone());
                     }
@@ -142,6 +148,80 @@ fn deref_arg(e: &syn::Expr) -> &syn::Expr {
     match strip(e) {
         syn::Expr::Reference(r) => deref_arg(&r.expr),
         x => x,
+    }
+}
+
+/// the field values of the struct a constructor body builds: asserts skipped, lets inlined, and the tail either the struct
+/// literal itself or a call of a private function (free, or `Self::`) whose own body ends in it — read with the arguments
+/// bound to the callee's parameters
+fn ctor_values(f: &syn::File, consts: &BTreeMap<String, String>, block: &syn::Block, mut cx: Cx, fields: &[String], depth: usize) -> Result<BTreeMap<String, PT>, String> {
+    let mut tail: Option<&syn::Expr> = None;
+    for (i, s) in block.stmts.iter().enumerate() {
+        if is_assert(s) {
+            continue;
+        }
+        match s {
+            syn::Stmt::Local(l) => match plain_let(l) {
+                Some((n, _, v)) => {
+                    cx.vals.remove(&n);
+                    cx.lets.insert(n, v.clone());
+                }
+                None => return Err("plain `let` statements".into()),
+            },
+            syn::Stmt::Expr(e, None) if i + 1 == block.stmts.len() => tail = Some(e),
+            syn::Stmt::Expr(syn::Expr::Return(r), _) if i + 1 == block.stmts.len() => tail = r.expr.as_deref(),
+            _ => return Err("asserts, lets and a tail expression".into()),
+        }
+    }
+    let tail = match tail {
+        Some(t) => strip(t),
+        None => return Err("a tail struct literal `Self { .. }` (or a call of a private function ending in one)".into()),
+    };
+    if let syn::Expr::Struct(st) = tail {
+        let mut vals: BTreeMap<String, PT> = BTreeMap::new();
+        for fv in &st.fields {
+            if let syn::Member::Named(n) = &fv.member {
+                vals.insert(n.to_string(), cx.pt(&fv.expr));
+            }
+        }
+        if st.rest.is_some() || vals.len() != fields.len() {
+            return Err("a struct literal naming every field".into());
+        }
+        return Ok(vals);
+    }
+    if let syn::Expr::Call(c) = tail {
+        if depth < 2 {
+            let segs = path_segments(&c.func).unwrap_or_default();
+            let callee: Option<(&syn::Signature, &syn::Block)> = match segs.as_slice() {
+                [n] => crate::mini::free_fn(f, n).map(|x| (&x.sig, &*x.block)),
+                [o, n] if o == "Self" || o == TY => crate::mini::impl_fn(f, TY, n).map(|x| (&x.sig, &x.block)),
+                _ => None,
+            };
+            if let Some((sig, body)) = callee {
+                let ps = param_names(sig);
+                if ps.len() == c.args.len() && sig.receiver().is_none() {
+                    let mut inner = Cx { param: String::new(), lets: BTreeMap::new(), vals: BTreeMap::new(), consts };
+                    for (p, a) in ps.iter().zip(c.args.iter()) {
+                        inner.vals.insert(p.clone(), cx.pt(a));
+                    }
+                    return ctor_values(f, consts, body, inner, fields, depth + 1);
+                }
+            }
+        }
+    }
+    Err("a tail struct literal `Self { .. }` (or a call of a private function ending in one)".into())
+}
+
+/// the method name a challenge constructor sets (for Consts.lean)
+pub fn method_literal(f: &syn::File, fname: &str) -> Option<String> {
+    let consts = str_consts(f);
+    let m = crate::mini::impl_fn(f, TY, fname)?;
+    let params = param_names(&m.sig);
+    let fields = vec!["code_challenge".to_string(), "code_challenge_method".to_string()];
+    let vals = ctor_values(f, &consts, &m.block, Cx { param: params.first()?.clone(), lets: BTreeMap::new(), vals: BTreeMap::new(), consts: &consts }, &fields, 0).ok()?;
+    match vals.get("code_challenge_method")? {
+        PT::Str(s) => Some(s.clone()),
+        _ => None,
     }
 }
 
@@ -215,42 +295,15 @@ pub fn extract(srcs: &Sources) -> R<String> {
         if ret == "Self" || ret == TY {
             // challenge constructor
             if params.len() != 1 {
-                return fail(file, &item, "one parameter (the verifier)");
-            }
-            let mut cx = Cx { param: params[0].clone(), lets: BTreeMap::new(), consts: &consts };
-            let mut lit: Option<&syn::ExprStruct> = None;
-            for (i, s) in m.block.stmts.iter().enumerate() {
-                if is_assert(s) {
-                    continue;
+                if matches!(m.vis, syn::Visibility::Public(_)) {
+                    return fail(file, &item, "one parameter (the verifier)");
                 }
-                match s {
-                    syn::Stmt::Local(l) => match plain_let(l) {
-                        Some((n, _, v)) => {
-                            cx.lets.insert(n, v.clone());
-                        }
-                        None => return fail(file, &item, "plain `let` statements"),
-                    },
-                    syn::Stmt::Expr(e, None) if i + 1 == m.block.stmts.len() => {
-                        if let syn::Expr::Struct(st) = strip(e) {
-                            lit = Some(st);
-                        }
-                    }
-                    _ => return fail(file, &item, "asserts, lets and a struct literal"),
-                }
+                continue; // a private helper that assembles the value: read where it is called
             }
-            let st = match lit {
-                Some(s) => s,
-                None => return fail(file, &item, "a tail struct literal `Self { .. }`"),
+            let vals = match ctor_values(f, &consts, &m.block, Cx { param: params[0].clone(), lets: BTreeMap::new(), vals: BTreeMap::new(), consts: &consts }, &fields, 0) {
+                Ok(v) => v,
+                Err(shape) => return fail(file, &item, shape),
             };
-            let mut vals: BTreeMap<String, PT> = BTreeMap::new();
-            for fv in &st.fields {
-                if let syn::Member::Named(n) = &fv.member {
-                    vals.insert(n.to_string(), cx.pt(&fv.expr));
-                }
-            }
-            if st.rest.is_some() || vals.len() != fields.len() {
-                return fail(file, &item, "a struct literal naming every field");
-            }
             ctors.push(format!(
                 "{{ fn_ := {}, cfg := {}, challenge := {}, method := {} }}",
                 lean::s(&name),
